@@ -595,12 +595,14 @@ class ServiceClass:
                 evt.EVT_N_ACTION,
                 {"request": req, "context": context.as_tuple},
             )
+            # Unpack here so an invalid return value results in a failure
+            #   response rather than an exception that aborts the association
+            if self.assoc.is_established:
+                usr_status, ds = cast(UserReturnType, user_response)
 
         # Exception in context or handler aborted/released
         if not ctx.success or not self.assoc.is_established:
             return
-
-        usr_status, ds = cast(UserReturnType, user_response)
 
         # Check Status validity
         # Validate rsp_status and set rsp.Status accordingly
@@ -747,12 +749,14 @@ class ServiceClass:
                 evt.EVT_N_CREATE,
                 {"request": req, "context": context.as_tuple},
             )
+            # Unpack here so an invalid return value results in a failure
+            #   response rather than an exception that aborts the association
+            if self.assoc.is_established:
+                usr_status, ds = cast(UserReturnType, user_response)
 
         # Exception in context or handler aborted/released
         if not ctx.success or not self.assoc.is_established:
             return
-
-        usr_status, ds = cast(UserReturnType, user_response)
 
         # Check Status validity
         # Validate rsp_status and set rsp.Status accordingly
@@ -985,12 +989,14 @@ class ServiceClass:
                 evt.EVT_N_EVENT_REPORT,
                 {"request": req, "context": context.as_tuple},
             )
+            # Unpack here so an invalid return value results in a failure
+            #   response rather than an exception that aborts the association
+            if self.assoc.is_established:
+                usr_status, ds = cast(UserReturnType, user_response)
 
         # Exception in context or handler aborted/released
         if not ctx.success or not self.assoc.is_established:
             return
-
-        usr_status, ds = cast(UserReturnType, user_response)
 
         # Check Status validity
         # Validate rsp_status and set rsp.Status accordingly
@@ -1131,12 +1137,14 @@ class ServiceClass:
             user_response = evt.trigger(
                 ctx.assoc, evt.EVT_N_GET, {"request": req, "context": context.as_tuple}
             )
+            # Unpack here so an invalid return value results in a failure
+            #   response rather than an exception that aborts the association
+            if self.assoc.is_established:
+                usr_status, ds = cast(UserReturnType, user_response)
 
         # Exception in context or handler aborted/released
         if not ctx.success or not self.assoc.is_established:
             return
-
-        usr_status, ds = cast(UserReturnType, user_response)
 
         # Validate rsp_status and set rsp.Status accordingly
         rsp = self.validate_status(usr_status, rsp)
@@ -1288,12 +1296,14 @@ class ServiceClass:
             user_response = evt.trigger(
                 ctx.assoc, evt.EVT_N_SET, {"request": req, "context": context.as_tuple}
             )
+            # Unpack here so an invalid return value results in a failure
+            #   response rather than an exception that aborts the association
+            if self.assoc.is_established:
+                usr_status, ds = cast(UserReturnType, user_response)
 
         # Exception in context or handler aborted/released
         if not ctx.success or not self.assoc.is_established:
             return
-
-        usr_status, ds = cast(UserReturnType, user_response)
 
         # Validate rsp_status and set rsp.Status accordingly
         rsp = self.validate_status(usr_status, rsp)
